@@ -19,6 +19,8 @@ def decision_table(fn):
     rows, implied = [], set()
     for tests, v in entries:
         lits = [x for x in split_tests(tests) if x not in implied]
+        while isinstance(v, ast.Call) and is_name(v.func, "bool") and len(v.args) == 1 and not v.keywords:
+            v = v.args[0]        # bool(x) as the result of a predicate is x
         val = norm(v)
         # a result that merely restates a condition of its own row (or of an earlier refusal) is that truth value
         if val in lits or val in implied:
@@ -143,8 +145,15 @@ def run(repo, chk):
     fa = facts_of(an_fn)
     ap = an_fn.node.args.args[1].arg
     gate = {f"isinstance({ap}, ast.Str)", f"{ap}.s.startswith('@')"}
-    rewrites = [c for t, c, n in fa.items if isinstance(n, ast.Assign) and any(is_name(t_, ap) for t_ in n.targets)]
-    ok = bool(rewrites) and all(gate <= set(c) for c in rewrites) and all(is_name(r.value, ap) for r in returns_of(an_fn.node)) and bool(returns_of(an_fn.node))
+    # where the get_tags call is built (assigned to the parameter, to a local, or returned directly): always under the gate;
+    # everything that is returned is either that call or the annotation as it came in
+    built = [(t, set(c), n) for t, c, n in fa.items if isinstance(n, (ast.Assign, ast.Return)) and "self._get('get_tags')" in t]
+    holders = {ap} | {n.targets[0].id for t, c, n in built if isinstance(n, ast.Assign) and len(n.targets) == 1 and isinstance(n.targets[0], ast.Name)}
+    rets = returns_with_conds(an_fn.node)
+    ok = bool(built) and all(gate <= c for t, c, n in built) and bool(rets) \
+        and all((isinstance(v, ast.Name) and v.id in holders) or (v is not None and "self._get('get_tags')" in norm(v) and gate <= set(cs)) for cs, v, r in rets) \
+        and all(gate <= set(cs) for cs, v, r in rets if isinstance(v, ast.Name) and v.id != ap) \
+        and any(isinstance(v, ast.Name) and v.id == ap for cs, v, r in rets)
     chk.ob("R11.2", "_ann:only-@-strings-are-rewritten", ok, an_fn.where, "only string annotations starting with '@' are turned into get_tags calls; anything else is passed through unchanged")
     chk.ob("R11.2", "_ann:splits-on-&-and-strips-@", fa.mentions(f"re.split(' *& *', {ap}.s)") and fa.mentions("ast.Str(s=tag[1:])"), an_fn.where, "'@A & @B' is split on & and each tag name loses its '@'")
     mi = repo.func(f"transform.{cls}.make_interaction")
@@ -191,7 +200,7 @@ def run(repo, chk):
     fs = repo.func("overlay.fits_selector")
     ff = facts_of(fs)
     pfn = fs.node.args.args[0].arg
-    elt_test = f"check_element(selector.element, {pfn}, {pfn}.__annotations__.get('return', None))"
+    elt_test = f"check_element(selector.element, {pfn}, {pfn}.__annotations__.get('return'))"
     ok = ff.has("return False", exactly=[f"not {elt_test}"]) and all(elt_test in c for t, c, n in ff.items if isinstance(n, ast.Return) and t != "return False")
     chk.ob("R11.3", "overlay.fits_selector:function-tag-from-return-annotation", ok, fs.where,
            "a tag in function position is matched against the function's return annotation")
